@@ -233,8 +233,15 @@ example : ¬ IdentifiesCase id asciiUpper := fun h => by
   rw [asciiUpper, String.toList_map] at e
   exact absurd e (by decide)
 
-/-- **Case is ignored**: re-spelling the owner name, a PTR record's target or an SRV record's target host in another
-case (any `upper` whose variants `lower` identifies) yields the same record with the same hash. -/
+/-- **Case of ASCII letters is ignored**: re-spelling the owner name, a PTR record's target or an SRV record's target host
+with an `upper` whose variants `lower` identifies yields the same record with the same hash.
+
+Read this for what it is: a corollary of `C20_eq_iff` and the hypothesis.  The hypothesis `IdentifiesCase lower upper` holds
+for ASCII lowering / upper-casing (`asciiLower_identifies_ascii_case`, the only witness) and is **false** for Python's own pair
+`str.lower` / `str.upper` (`'ß'.upper().lower() == 'ss'`, `'ı'.upper().lower() == 'i'`, `'ſ'.upper().lower() == 's'`).  So the
+proved clause is "case of ASCII letters is ignored"; for every other letter identity simply follows `str.lower` (`C20_eq_iff`
+with `lower := str.lower`), and *which* spellings that merges (K/k, É/é, ẞ/ß, İ) or keeps apart (ß/ss, ſ/s, ı/i, NFC/NFD) is
+decided on the real code by the harness's hand-written folding table, not by a theorem. -/
 theorem C20_case_ignored (upper : String → String) (h : IdentifiesCase lower upper) (a : Rec) :
     (({ a with name := upper a.name } : Rec).beq lower a = true
       ∧ ({ a with name := upper a.name } : Rec).hashKey lower = a.hashKey lower)
